@@ -411,8 +411,13 @@ def run_one(seed, tape, opts):
             return "-".join(parts)
         ops = [("input",)]
         for _ in range(2 + tape.choose(10, "nh")):
-            k = tape.choose(9, "hk")
-            if k in (0, 7):
+            k = tape.choose(10, "hk")
+            if k == 9:
+                # a UI with live completion: asks to be told when the
+                # wordlist is there and fetches completions from inside that
+                # notification
+                ops.append(("h", "when_wordlist_is_available", gen_prefix()))
+            elif k in (0, 7):
                 ops.append(("h", "refresh_nameplates"))
             elif k in (1, 8):
                 ops.append(("h", "get_nameplate_completions",
@@ -458,6 +463,34 @@ def run_one(seed, tape, opts):
             h = b.helper
             name = op[1]
             arg = op[2] if len(op) > 2 else None
+            if name == "when_wordlist_is_available":
+                def from_notification(_, prefix=arg):
+                    sim.note("probe.completions_from_wordlist_notification")
+                    try:
+                        got_c = h.get_word_completions(prefix)
+                    except E.AlreadyChoseWordsError:
+                        return
+                    except Exception as e:
+                        VV("C19.helper_unexpected_exception."
+                           "get_word_completions", "input helper calls follow "
+                           "docs/api.rst: once the wordlist is announced "
+                           "completions can be had", "get_word_completions(%r)"
+                           " from inside the when_wordlist_is_available() "
+                           "notification raised %r" % (prefix, e))
+                        return
+                    for c_ in got_c:
+                        if not c_.startswith(prefix):
+                            VV("C19.word_completion_not_extension", "every "
+                               "completion extends the prefix", "%r -> %r" %
+                               (prefix, c_))
+                try:
+                    h.when_wordlist_is_available().addCallback(
+                        from_notification)
+                except Exception as e:
+                    VV("C19.helper_unexpected_exception."
+                       "when_wordlist_is_available", "input helper calls "
+                       "follow docs/api.rst", repr(e))
+                return
             if name.endswith("_of_A"):
                 acode = a.code
                 if name == "choose_nameplate_of_A":
